@@ -385,6 +385,13 @@ def oracle_c11(case, reply):
                            % (c.s["id"], [b["id"] for b in c.bind_missing]))
             elif not [t for t in toks if t.startswith("bindmissing:")] and not [t for t in toks if t.startswith("multi:")]:
                 bad.append("set %d rejected without a binding diagnostic: %s" % (c.s["id"], rep[:200]))
+        # two bindings of one interface to different concrete types in the same set: which value would "every dependency on I" get?
+        seen_b = {}
+        for b in c.s.get("bnds", []):
+            if b["iface"] in seen_b and verdict == "ok":
+                bad.append("set %d accepted although it binds interface %d twice (to %d and to %d)"
+                           % (c.s["id"], b["iface"], seen_b[b["iface"]], b["provided"]))
+            seen_b.setdefault(b["iface"], b["provided"])
         for t in toks:
             if t.startswith("bindmissing:"):
                 i, p = [int(x) for x in t.split(":")[1:]]
